@@ -56,6 +56,8 @@ class AuditLog:
         sys.addaudithook(self._hook)
 
     def _under(self, p):
+        if isinstance(p, os.PathLike):
+            p = os.fspath(p)
         if isinstance(p, bytes):
             p = os.fsdecode(p)
         if not isinstance(p, str):
@@ -77,7 +79,7 @@ class AuditLog:
             writing = (isinstance(mode, str) and any(c in mode for c in "wax+")) or (flags & _WRITE_FLAGS)
             (self.mutations if writing else self.reads).append(("open", p, mode))
         elif event in MUTATING:
-            paths = [self._under(a) for a in args[:2] if isinstance(a, (str, bytes))]
+            paths = [self._under(a) for a in args[:2] if isinstance(a, (str, bytes, os.PathLike))]
             paths = [p for p in paths if p]
             if not paths:
                 return
